@@ -111,6 +111,10 @@ def parse_output(res, out):
         if m:
             res.generated = int(m.group(1).replace(',', ''))
             res.distinct = int(m.group(2).replace(',', ''))
+        m = re.search(r'The number of states generated: (\d+)', line)
+        if m:
+            res.generated = int(m.group(1))
+            res.distinct = max(res.distinct, len(res.emitted))
         m = _re_depth.search(line)
         if m:
             res.depth = int(m.group(1))
